@@ -148,6 +148,14 @@ pub fn run(run: &Run) {
     });
     huge_section(run, true, &[Prof::Opaque], &|_p, s, l| check(run, s, l));
     concurrent_distinct(run, &[Prof::Opaque], &concurrent_unit, &|_p, s, l| check(run, s, l));
+    pointer_offset_sweep(run, &["\u{a0}", "\u{3000}", "  ", " \u{a0}", "e\u{301}", "\u{212b}", "\u{fb01}", "A", "\u{2003} ", "\u{9c7}\u{9be}"], &|s, l| check(run, s, l));
+    battery(run, "respelled_middle_dot", &respelled_middle_dot_strings(), &|s, l| match check(run, s, l) {
+        Ok(()) => true,
+        Err(v) => {
+            run.violate(v);
+            false
+        }
+    });
     collisions(run, "fingerprint_collisions", &|s, l| match check(run, s, l) {
         Ok(()) => true,
         Err(v) => {
